@@ -24,6 +24,8 @@ DIMS = dict(
     horizon=["fixed", "Tfree"],
     state=["vec2", "mat22"],
     second=[False, True],          # a second state whose set_der (with its own scale) is called BEFORE the first one's
+    vc=["control", "control+"],    # per-interval variable without / with an entry of its own at the final node
+    redeclare=[False, True],       # the model is declared twice: a draft with derivative scale 7, then the final one
 )
 
 
@@ -44,7 +46,9 @@ def finish(a):
     if a["second"]:
         a["der_order"] = "reverse"
         if sder != 1: sc["der_y"] = 5.0
-    d = P.case(vg=True, vc="control", **a)
+    red = a.pop("redeclare")
+    d = P.case(vg=True, **a)
+    if red: d["redeclare"] = True
     d["scales"] = sc
     d["cons"] = [P.con("bc0", scale=scon), P.con("bcf", scale=scon), P.con("bc_mixed", scale=scon), P.con("x_le", scale=scon), P.con("xu_between", scale=scon), P.con("x_vec_ge", scale=scon), P.con("x_vec_mixed", scale=scon), P.con("x_vec_mixed_lb", scale=scon), P.con("x_le_xv", scale=scon), P.con("vc_ge")]
     # scaled constraints on the finer grids (every call site that forwards scale=)
@@ -68,7 +72,7 @@ def cases(tier):
         seen.add(h)
         out.append(dict(d=d, dev=dev))
     # every scale slot (and all slots together) x every method x M x DAE: the sub-product the deviation bound would only reach at k=4
-    slots = [("sx", 3), ("sx", "elem"), ("mat", "sx"), ("mat", "sder"), ("mat", "both"), ("second", "sder"), ("su", 0.25), ("svg", 3), ("svc", 0.25), ("sz", 3), ("sder", 3), ("sder", "elem"), ("salg", 0.25), ("scon", 3), ("scon", 0.25)]
+    slots = [("svc+", 0.25), ("redeclare", 1), ("redeclare", 3), ("sx", 3), ("sx", "elem"), ("mat", "sx"), ("mat", "sder"), ("mat", "both"), ("second", "sder"), ("su", 0.25), ("svg", 3), ("svc", 0.25), ("sz", 3), ("sder", 3), ("sder", "elem"), ("salg", 0.25), ("scon", 3), ("scon", 0.25)]
     for meth in DIMS["method"]:
         for M in (1, 2):
             for al in (False, True):
@@ -79,6 +83,10 @@ def cases(tier):
                         a.update(sx="elem", su=0.25, svg=3, svc=0.25, sz=3, sder="elem", salg=0.25, scon=3)
                     elif sl[0] == "second":
                         a.update(second=True, sder=3)
+                    elif sl[0] == "svc+":
+                        a.update(vc="control+", svc=sl[1])
+                    elif sl[0] == "redeclare":
+                        a.update(redeclare=True, sder=sl[1])
                     elif sl[0] == "mat":
                         # matrix-valued state with element-wise scales (column-major element order)
                         a.update(state="mat22")
